@@ -2,7 +2,7 @@
 From Coq Require Import String.
 From Coq Require Import List NArith Bool.
 From C33 Require Import Lib.Harness Lib.Bytes C12.Spec.
-From C33 Require Export C12.Model.
+From C33 Require Export C12.Model C12.ModelGroup.
 Import ListNotations.
 Open Scope N_scope.
 
@@ -16,6 +16,18 @@ Inductive tx_obs := TxObs (txexec : list N) (feekv : list kv) (r : exec_result)
 (** one transaction of an added block: executor name, the KV keys its ExecLocal returned
     ([None] = nil list), keys it Set in the local db directly *)
 Inductive ltx := LTx (txexec : list N) (keys : option (list (list N))) (memset : list (list N)).
+
+(** one scripted transaction of a block with groups: the script, whether the synthetic
+    driver's Exec really ran for it, and the receipt (type, KV) the implementation produced *)
+Inductive gm_obs := GmObs (m : member) (ran : bool) (i_ty : N) (i_kv : list kv).
+
+(** a single transaction or a transaction group, with the fee KVs of its (first) receipt *)
+Inductive gitem :=
+| GI1 (feekv : list kv) (o : gm_obs)
+| GIG (feekv : list kv) (os : list gm_obs).
+
+(** per-case table of byte strings: case terms of the harness say [d i] *)
+Definition dn (t : list (list N)) (i : N) : list N := nth (N.to_nat i) t [].
 
 Inductive case :=
 | CEnv (reg syn allow_direct : list (list N))
@@ -43,6 +55,10 @@ Inductive case :=
          (addrs : list (list N * list N)) (txs : list tx_obs)
          (probe : list (list N * option (list N)))
     (* EventExecTxList on a test node; probe = state values a last transaction read *)
+| CGroupBlock (title : list N) (fork : bool) (yes : list (list N))
+         (addrs : list (list N * list N)) (items : list gitem)
+         (probe : list (list N * option (list N)))
+    (* EventExecTxList with transaction groups on a test node; probe as for CBlock *)
 | CLocalBlock (txs : list ltx) (i_res : N) (i_keys : list (list N)).
     (* EventAddBlock: 0 = LocalDBSet reply (keys of the synthetic drivers, in order),
        1 = ErrNotAllowMemSetLocalKey, 2 = ErrExecPanic, 3 = anything else *)
@@ -148,6 +164,74 @@ Fixpoint run_spec (title : list N) (fork : bool) (exec_addr : list N -> list N)
 Definition probe_ok (s : state) (probe : list (list N * option (list N))) : bool :=
   forallb (fun p => option_eqb bytes_eqb (st_get s (fst p)) (snd p)) probe.
 
+(** ---- executed lists with transaction groups ---- *)
+Definition gm_member (o : gm_obs) : member := match o with GmObs m _ _ _ => m end.
+Definition gm_rcpt (o : gm_obs) : rcpt := match o with GmObs _ _ ty kvs => (ty, kvs) end.
+
+Definition to_item (g : gitem) : item :=
+  match g with
+  | GI1 fee o => ISingle fee (gm_member o)
+  | GIG fee os => IGroup fee (map gm_member os)
+  end.
+
+Definition item_rcpts (g : gitem) : list rcpt :=
+  match g with
+  | GI1 _ o => [gm_rcpt o]
+  | GIG _ os => map gm_rcpt os
+  end.
+
+Definition rcpt_eqb (a b : rcpt) : bool := N.eqb (fst a) (fst b) && kvs_eqb (snd a) (snd b).
+
+(** spec side for one transaction, from the implementation's receipt only: ExecOk demands that
+    every key the driver Set is reported and every reported key is allowed; any other receipt
+    carries nothing but the fee part.  Result: keys that break it ([[]] = shape failure). *)
+Definition member_bad_keys (title : list N) (reg yes : list (list N))
+           (exec_addr : list N -> list N) (fee : list kv) (o : gm_obs) : list (list N) :=
+  match o with
+  | GmObs m ran i_ty i_kv =>
+      let txexec := m_exec m in
+      let real := real_exec_of title (fun n => mem n reg) txexec in
+      let written := if ran then map fst (m_direct m) else [] in
+      if N.eqb i_ty ty_exec_ok then
+        match drop_prefix_kv fee i_kv with
+        | Some own =>
+            if forallb (fun k => mem k (map fst own)) written then
+              filter (fun k => negb (spec_key_allowed title reg yes exec_addr real txexec k))
+                     (map fst own)
+            else [[]]               (* unreported write accepted *)
+        | None => [[]]
+        end
+      else if kvs_eqb i_kv fee then [] else [[]]
+  end.
+
+Fixpoint members_spec (title : list N) (fork : bool) (reg yes : list (list N))
+         (exec_addr : list N -> list N) (fee : list kv) (os : list gm_obs) (s : state)
+  : bool * N * state :=
+  match os with
+  | [] => (true, 0, s)
+  | o :: tl =>
+      match member_bad_keys title reg yes exec_addr fee o with
+      | [] => members_spec title fork reg yes exec_addr [] tl (st_set s (snd (gm_rcpt o)))
+      | k :: _ => (false, kf_legacy title fork (m_exec (gm_member o)) k, s)
+      end
+  end.
+
+Fixpoint items_spec (title : list N) (fork : bool) (reg yes : list (list N))
+         (exec_addr : list N -> list N) (its : list gitem) (s : state) : bool * N * state :=
+  match its with
+  | [] => (true, 0, s)
+  | it :: tl =>
+      let '(ok, k, s1) :=
+        match it with
+        | GI1 fee o => members_spec title fork reg yes exec_addr fee [o] s
+        | GIG fee os => members_spec title fork reg yes exec_addr fee os s
+        end in
+      if ok then items_spec title fork reg yes exec_addr tl s1 else (false, k, s1)
+  end.
+
+Definition sdb_probe_ok (s : sdb) (probe : list (list N * option (list N))) : bool :=
+  forallb (fun p => option_eqb bytes_eqb (sdb_get s (fst p)) (snd p)) probe.
+
 (** ---- added blocks (local keys) ---- *)
 Fixpoint local_block (txs : list ltx) : N * list (list N) :=
   match txs with
@@ -213,6 +297,15 @@ Definition check_case (c : case) : verdict :=
       let '(m1, sm) := run_model title fork exec_addr reg yes allow_list txs [] in
       let '(s1, k, ss) := run_spec title fork exec_addr reg yes txs [] in
       let m := m1 && probe_ok sm probe in
+      let s := s1 && probe_ok ss probe in
+      (m, s, if s1 then 0 else k)
+  | CGroupBlock title fork yes addrs items probe =>
+      let reg := env_reg in
+      let exec_addr := fun n => assoc n addrs in
+      let '(sm, rss) := exec_items title fork exec_addr (fun n => mem n reg) (friend_tbl yes)
+                                   env_allow_node sdb_empty (map to_item items) in
+      let m := list_eqb (list_eqb rcpt_eqb) rss (map item_rcpts items) && sdb_probe_ok sm probe in
+      let '(s1, k, ss) := items_spec title fork reg yes exec_addr items [] in
       let s := s1 && probe_ok ss probe in
       (m, s, if s1 then 0 else k)
   | CLocalBlock txs i_res i_keys =>
